@@ -168,6 +168,9 @@ def np_linspace(interp, args, kwargs):
     return Vec(cn if cn is not None else nz, fn, kind="ndarray", elem="real")
 
 
+NP_ARRAY_HOOKS = []
+
+
 @lib("numpy.array", "numpy.asarray")
 def np_array(interp, args, kwargs):
     ctx = interp.ctx
@@ -186,6 +189,10 @@ def np_array(interp, args, kwargs):
         if dt is not None and getattr(dt, "name", "").split(".")[-1] == "object":
             from .lib_sp_blocks import np_array_object
             return np_array_object(interp, x)
+        for hook in NP_ARRAY_HOOKS:        # abstract row values supplied by other library models (e.g. graph nodes)
+            r = hook(interp, x)
+            if r is not None:
+                return r
         if x.elem == "obj" or (isinstance(x.elem, tuple) and x.elem[0] == "row"):
             return rows_to_mat(interp, x)
         out = ops.vec_copy(ctx, x, kind="ndarray")
